@@ -159,6 +159,17 @@ Section TrustProofs.
     destruct (eku_rejected (features ee) (additional_ekus cert p) tst now Hq He) as [b [k [E1 E2]]].
     exists k. cbn. rewrite E1. cbn. rewrite E2. split; reflexivity.
   Qed.
+
+  (* after fix 85312f708 (every profile Err leaves a code) the quiet-input hypothesis is gone *)
+  Theorem unaccepted_eku_flagged_all : forall p ee chain tst now,
+    eku_accepted (additional_ekus cert p) (features ee) = false ->
+    exists k, vprofile (VerifyTrustPolicy cert p) (ee :: chain) tst now = [k]
+              /\ vprofile (VerifyCertificateProfileOnly cert p) (ee :: chain) tst now = [k].
+  Proof.
+    intros p ee chain tst now He.
+    destruct (eku_rejected_all (features ee) (additional_ekus cert p) tst now He) as [b [k [E1 E2]]].
+    exists k. cbn [verify_profile]. rewrite E1. cbv beta iota delta [profile_log]. rewrite E2. split; reflexivity.
+  Qed.
 End TrustProofs.
 
 (* ------------------------------------------------------------------ never Valid / Trusted *)
